@@ -425,9 +425,9 @@ def shard_hashseed(seed: int, ks):
 
 
 def shards(tier: str, seed: int):
-    n = dict(quick=22, thorough=300)[tier]
+    n = dict(quick=22, thorough=160)[tier]
     ksets = [("logistic",), ("joint",), ("linear",), ("shared_speed_logistic",), ("logistic", "joint"), ("joint",), ("logistic", "linear")]
-    specs = [(MOD, "shard_hashseed", dict(seed=seed, ks=[0, 1, 2, 3] if tier == "quick" else list(range(8)))),
+    specs = [(MOD, "shard_hashseed", dict(seed=seed, ks=[0, 1, 3] if tier == "quick" else list(range(8)))),
              (MOD, "shard_workers", dict(seed=seed, n_cases=3 if tier == "quick" else 12))]
     for k in range(14):
         specs.append((MOD, "shard_rel", dict(kinds=ksets[k % len(ksets)], seed=seed, n_examples=n, shard=k)))
